@@ -316,7 +316,7 @@ CHECKS = {
                      'Pangaea.C08.addFirst_keeps', 'Pangaea.C08.addAllFirst_keeps', 'Pangaea.Core.allStable', 'Pangaea.C08.output_only_grows',
                      'Pangaea.C08.program_output_only_grows', 'Pangaea.C08.call_output_only_grows', 'Pangaea.C08.stdin_only_consumed',
                      'Pangaea.C08.elems_left_to_right', 'Pangaea.C08.seq_of_gives', 'Pangaea.C08.gives_of_seq', 'Pangaea.C08.call_order',
-                     'Pangaea.C08.infix_order', 'Pangaea.C08.range_order', 'Pangaea.C08.kwargs_in_order_written', 'Pangaea.C08.duplicate_keyword_first_wins', 'Pangaea.C08.embedded_parts_in_source_order', 'Pangaea.C08.pairs_in_source_order'],
+                     'Pangaea.C08.infix_order', 'Pangaea.C08.range_order', 'Pangaea.C08.kwargs_in_order_written', 'Pangaea.C08.duplicate_keyword_first_wins', 'Pangaea.C08.embedded_parts_in_source_order', 'Pangaea.C08.pairs_in_source_order', 'Pangaea.C08.args_in_order_written'],
         'harness': ['C08'],
         'shards': 14,
         'spec_is_function': True,
